@@ -298,4 +298,74 @@ theorem verifyScript_p2sh_p2wpkh_bad (chk : PChk) (sig key h hr : Bytes) (flags 
     · simp [htrue]
   · exact verifyScript_p2sh_mismatch chk _ (witnessV0Script h) hr [] [sig, key] flags tx hev hhr hrlen (by simp)
 
+/-! ### a spent script changed into another one that the same unlocking data still runs: `… CHECKSIG NOP` -/
+
+theorem stepP_nop (chk : PChk) (env : Env) (alt : List Bytes) (nOp cs pcNext : Nat) (stack : List Bytes)
+    (hops : nOp + 1 ≤ 201) (hst : stack.length + alt.length ≤ 1000) :
+    stepP chk env ⟨stack, alt, [], nOp, cs⟩ 0x61 [] pcNext = .ok ⟨stack, alt, [], nOp + 1, cs⟩ := by
+  rw [stepP_nonpush chk env pcNext _ 0x61 rfl (by decide) (by decide) hops (by decide) (by decide)]
+  simp [execOp, OP_1NEGATE, OP_1, OP_16, OP_NOP, MAX_STACK_SIZE]
+  omega
+
+/-- `DUP HASH160 <h> EQUALVERIFY CHECKSIG NOP` -/
+def p2pkhNopScript (h : Bytes) : Bytes := [0x76, 0xa9, 0x14] ++ h ++ [0x88, 0xac, 0x61]
+
+theorem p2pkhNop_not_witness (h : Bytes) (hlen : h.length = 20) : isWitnessProgram (p2pkhNopScript h) = none := by
+  simp [isWitnessProgram, p2pkhNopScript, hlen, OP_0, OP_1, OP_16]
+
+theorem p2pkhNop_not_p2sh (h : Bytes) (hlen : h.length = 20) : isPayToScriptHash (p2pkhNopScript h) = false := by
+  simp [isPayToScriptHash, p2pkhNopScript, hlen]
+
+/-- the script with the trailing `NOP`, rejecting runs: as for P2PKH, the `NOP` leaves the false where it is -/
+theorem evalScript_p2pkhNop_bad (chk : PChk) (sig key h : Bytes) (flags : Flags) (tx : TxCtx) (sv : SigVersion)
+    (hlen : h.length = 20)
+    (hsig : checkSignatureEncoding sig flags = none) (hkey : checkPubKeyEncoding key flags sv = none)
+    (hnf : flags.nullfail = false)
+    (hbad : Hash.hash160 key ≠ h ∨
+      chk sig key (scriptCodeFor ⟨p2pkhNopScript h, flags, sv, tx⟩ ⟨[], [], [], 0, 0⟩ [sig]) sv = false) :
+    (∃ e, evalScript chk [key, sig] (p2pkhNopScript h) flags tx sv = .error e) ∨
+      evalScript chk [key, sig] (p2pkhNopScript h) flags tx sv = .ok [[]] := by
+  have hl : (p2pkhNopScript h).length ≤ 10000 := by simp [p2pkhNopScript]; omega
+  have e0 : p2pkhNopScript h = 0x76 :: (0xa9 :: (UInt8.ofNat h.length :: (h ++ [0x88, 0xac, 0x61]))) := by
+    simp [p2pkhNopScript, hlen]
+  by_cases hh : Hash.hash160 key = h
+  · have hc : chk sig key (scriptCodeFor ⟨p2pkhNopScript h, flags, sv, tx⟩ ⟨[], [], [], 0, 0⟩ [sig]) sv = false := by
+      rcases hbad with h1 | h1
+      · exact absurd hh h1
+      · exact h1
+    right
+    apply evalScript_of_loop _ _ _ _ _ _ hl ⟨[[]], [], [], 5, 0⟩ _ rfl
+    have hcode := fun st hst => scriptCodeFor_start (p2pkhNopScript h) flags sv tx st [sig] hst
+    generalize henv : (⟨p2pkhNopScript h, flags, sv, tx⟩ : Env) = env at *
+    have hf : env.flags = flags := by rw [← henv]
+    have hv : env.sigversion = sv := by rw [← henv]
+    rw [e0, evalLoopP_step _ _ _ _ _ _ _ (getScriptOp_op 0x76 _ (by decide))
+      (stepP_dup _ _ _ _ _ _ _ _ (by omega) (by simp))]
+    rw [evalLoopP_step _ _ _ _ _ _ _ (getScriptOp_op 0xa9 _ (by decide))
+      (stepP_hash160' _ _ _ _ _ _ _ _ _ hh (by omega) (by simp))]
+    rw [evalLoopP_step _ _ _ _ _ _ _ (getScriptOp_direct h _ (by omega))
+      (stepP_push _ _ _ _ _ _ _ _ _ (by omega) (by omega) (checkMinimalPush_direct h (by omega) (by omega)) (by simp) (by omega))]
+    rw [evalLoopP_step _ _ _ _ _ _ _ (getScriptOp_op 0x88 _ (by decide))
+      (stepP_equalverify _ _ _ _ _ _ _ _ (by omega) (by simp))]
+    rw [evalLoopP_step _ _ _ _ _ _ _ (getScriptOp_op 0xac _ (by decide))
+      (stepP_checksig_gen _ _ _ _ _ _ _ _ _ (by omega) (by simp) (by rw [hf]; exact hsig) (by rw [hf, hv]; exact hkey)
+        (by rw [hf]; exact hnf))]
+    rw [hv, hcode _ rfl, hc]
+    rw [evalLoopP_step _ _ _ _ _ _ _ (getScriptOp_op 0x61 _ (by decide))
+      (stepP_nop _ _ _ _ _ _ _ (by omega) (by simp [boolBytes, vchFalse]))]
+    rw [evalLoopP_nil]
+    rfl
+  · left
+    refine ⟨.EQUALVERIFY, ?_⟩
+    apply evalScript_of_loop_err _ _ _ _ _ _ hl
+    generalize (⟨p2pkhNopScript h, flags, sv, tx⟩ : Env) = env
+    rw [e0, evalLoopP_step _ _ _ _ _ _ _ (getScriptOp_op 0x76 _ (by decide))
+      (stepP_dup _ _ _ _ _ _ _ _ (by omega) (by simp))]
+    rw [evalLoopP_step _ _ _ _ _ _ _ (getScriptOp_op 0xa9 _ (by decide))
+      (stepP_hash160 _ _ _ _ _ _ _ _ (by omega) (by simp))]
+    rw [evalLoopP_step _ _ _ _ _ _ _ (getScriptOp_direct h _ (by omega))
+      (stepP_push _ _ _ _ _ _ _ _ _ (by omega) (by omega) (checkMinimalPush_direct h (by omega) (by omega)) (by simp) (by omega))]
+    exact evalLoopP_step_err _ _ _ _ _ _ _ (getScriptOp_op 0x88 _ (by decide))
+      (stepP_equalverify_ne _ _ _ _ _ _ _ _ _ (fun e => hh e.symm) (by omega))
+
 end Pycoin.Sign
